@@ -939,7 +939,14 @@ def run_C16(ctx):
                     cur = pick
                 inter.append((a if pick == 0 else b).pop(0))
                 tags.append(pick)
-            x = Case(fam, mode, bs, w, key, iv, ops=h1 + ["clone"] + inter, tags=[None] * (len(h1) + 1) + tags, role="interleaved")
+            if rng.random() < 0.35:
+                # `Clone::clone_from`: a second instance with a history of its own (so that any field `clone_from` forgets to
+                # overwrite is stale) is overwritten with a copy of the original, then used as the clone
+                hpre = history_ops(rng, fam, mode, bs, w, rng.randrange(1, 4))
+                pre = ["clone", "use 1"] + hpre + ["clonefrom 0", "use 0"]
+                x = Case(fam, mode, bs, w, key, iv, ops=h1 + pre + inter, tags=[None] * (len(h1) + len(pre)) + tags, role="interleaved-clonefrom")
+            else:
+                x = Case(fam, mode, bs, w, key, iv, ops=h1 + ["clone"] + inter, tags=[None] * (len(h1) + 1) + tags, role="interleaved")
             y = Case(fam, mode, bs, w, key, iv, ops=h1 + h2, role="fresh-orig")
             z = Case(fam, mode, bs, w, key, iv, ops=h1 + h3, role="fresh-clone")
             # two separately constructed instances used in alternation (no clone involved)
